@@ -1,0 +1,64 @@
+//go:build verif
+
+package types
+
+// Contracts for the deductive checks in /verif (tool: govc). Comment-only; compiled only with
+// the build tag `verif`. Spec functions live in /verif/spec/*.spec.
+
+//@ func (acct *Account) CheckNonce(n)
+//@   pure
+//@   nopanic
+//@   requires acct != nil
+//@   ensures result == nil <==> acct.Nonce == n                                      [C04]
+
+//@ func (acct *Account) AddNonce()
+//@   nopanic
+//@   requires acct != nil
+//@   modifies acct.Nonce
+//@   ensures old(acct.Nonce) < 18446744073709551615 ==> acct.Nonce == old(acct.Nonce) + 1   [C04]
+
+//@ func (acct *Account) GetNonce()
+//@   pure
+//@   nopanic
+//@   requires acct != nil
+//@   ensures result == acct.Nonce                                                    [C04]
+
+//@ func (acct *Account) SetNonce(n)
+//@   nopanic
+//@   requires acct != nil
+//@   modifies acct.Nonce
+//@   ensures acct.Nonce == n                                                         [C04]
+
+//@ func (acct *Account) CheckBalance(amt)
+//@   pure
+//@   nopanic
+//@   requires acct != nil && acct.Balance != nil && amt != nil
+//@   ensures result == nil <==> u(amt) <= u(acct.Balance)                            [C02,C04,C16]
+
+//@ func (acct *Account) AddBalance(amt)
+//@   nopanic
+//@   requires acct != nil && acct.Balance != nil && amt != nil
+//@   modifies u(acct.Balance)
+//@   ensures (result == nil) <==> old(u(amt)) < 2^255                                                  [C02]
+//@   ensures result == nil && old(u(acct.Balance)) + old(u(amt)) < 2^256 ==> u(acct.Balance) == old(u(acct.Balance)) + old(u(amt))   [C02]
+//@   ensures result != nil ==> u(acct.Balance) == old(u(acct.Balance))                                 [C02,C05]
+
+//@ func (acct *Account) SubBalance(amt)
+//@   nopanic
+//@   requires acct != nil && acct.Balance != nil && amt != nil
+//@   modifies u(acct.Balance)
+//@   ensures (result == nil) <==> (old(u(amt)) < 2^255 && old(u(amt)) <= old(u(acct.Balance)))        [C02,C16]
+//@   ensures result == nil ==> u(acct.Balance) == old(u(acct.Balance)) - old(u(amt))                   [C02,C16]
+//@   ensures result != nil ==> u(acct.Balance) == old(u(acct.Balance))                                 [C02,C05]
+
+//@ func (acct *Account) SetBalance(amt)
+//@   nopanic
+//@   requires acct != nil && acct.Balance != nil && amt != nil
+//@   modifies u(acct.Balance)
+//@   ensures u(acct.Balance) == old(u(amt))                                                            [C02,C17]
+
+//@ func (acct *Account) GetBalance()
+//@   nopanic
+//@   requires acct != nil && acct.Balance != nil
+//@   allocates uint256.Int
+//@   ensures result != nil && fresh(result) && u(result) == u(acct.Balance)                            [C02]
